@@ -155,9 +155,10 @@ func vhRouteIs(ad *bgp.Advertisement, ip net.IP, n int, s vhAdvSpec) bool {
 }
 
 type vhAnnounced struct {
-	name string
-	ips  []net.IP
-	on   bool
+	name  string
+	ips   []net.IP
+	on    bool
+	specs []vhAdvSpec // advertisements of the service's own pool (nil = those of the first pool)
 }
 
 // VerifBGPRoutes (C05): after any step, every session was last told exactly the routes the
@@ -202,6 +203,17 @@ func VerifBGPRoutes(nadv, step, npeers int) {
 	case 2:
 		svcs[0].ips = []net.IP{{10, 0, 1, vr.Byte()}}
 		vr.Assert(c.SetBalancer(log.NewNopLogger(), svcs[0].name, svcs[0].ips, pool, nil, nil) == nil, "SetBalancer failed")
+	case 5:
+		// a second service from ANOTHER pool: one advertisement aggregating to /24 for peer0 (the
+		// same aggregate as the first service's when that one aggregates to /24 as well), one /32
+		// advertisement for peer1 only
+		svcs[1].ips = []net.IP{{10, 0, 0, vr.Byte()}}
+		svcs[1].on = true
+		pool2 := &config.Pool{Name: "pool2", BGPAdvertisements: []*config.BGPAdvertisement{
+			{AggregationLength: 24, AggregationLengthV6: 128, Communities: map[community.BGPCommunity]bool{}, Nodes: map[string]bool{vhMe: true, vhOther: true}, Peers: []string{"peer0"}},
+			{AggregationLength: 32, AggregationLengthV6: 128, Communities: map[community.BGPCommunity]bool{}, Nodes: map[string]bool{vhMe: true, vhOther: true}, Peers: []string{"peer1"}}}}
+		svcs[1].specs = []vhAdvSpec{{len4: 24, len6: 128, node: true, peers: 1}, {len4: 32, len6: 128, node: true, peers: 2}}
+		vr.Assert(c.SetBalancer(log.NewNopLogger(), svcs[1].name, svcs[1].ips, pool2, nil, nil) == nil, "SetBalancer failed")
 	case 3:
 		// two more peers are configured while the service is announced; the session to one of them
 		// (symbolic, possibly none) cannot be started
@@ -252,7 +264,11 @@ func VerifBGPRoutes(nadv, step, npeers int) {
 				continue
 			}
 			for _, ip := range sv.ips {
-				for _, s := range specs {
+				own := specs
+				if sv.specs != nil {
+					own = sv.specs
+				}
+				for _, s := range own {
 					named := s.peers == 0 || s.peers&(1<<uint(pi)) != 0
 					if !named {
 						continue
